@@ -118,13 +118,20 @@ def run(ctx):
             ctx.spec_failures.append({"stream": "dice", "input": "mean(" + txt + ")", "impl": mn[:120], "model": fmt_q(em), "spec": "mean is the exact expectation"})
     # roll under a controlled random source: 0, 2^32-1, a grid, and every cumulative threshold +-1
     rolls, rmeta = [], []
-    for (txt, pf, pmf), mo in list(zip(trees, model))[: (120 if quick else 1500)]:
+    NROLL = 120 if quick else 500
+    full_probe = set()
+    for (txt, pf, pmf), mo in list(zip(trees, model))[:NROLL]:
         parts = [(F(kp.split(":")[0]), F(kp.split(":")[1])) for kp in re.search(r"parts=(\S*)", mo).group(1).split(";")]
         pts = {0, 1, 2**32 - 1, 2**32 - 2, 2**31}
         cum = 0
         for k, p in parts:
             cum += int(float(p) * 4294967295.0)
             pts |= {max(0, cum - 1), min(2**32 - 1, cum), min(2**32 - 1, cum + 1)}
+        if len(pts) > 70:
+            # many outcomes: probing every threshold costs one full evaluation of the dice expression each; sample them
+            pts = set(r.sample(sorted(pts), 64)) | {0, 2**32 - 1}
+        else:
+            full_probe.add(txt)
         for v in sorted(pts) + [r.randrange(2**32) for _ in range(4)]:
             rolls.append(f"{v} roll({txt})"); rmeta.append((txt, pf, pmf, v))
     routs = ctx.run_lines_robust(h, ["roll"], rolls, env={"HARNESS_LINE_TIMEOUT_S": "20"})
@@ -145,7 +152,9 @@ def run(ctx):
         if not mm or mm.group(1) == "none" or F(mm.group(1)) != got:
             ctx.model_disagreements.append({"stream": "dice", "input": f"roll({txt}) with random source = {v}", "impl": o[:100], "model": mo[-60:]})
     # each outcome of non-negligible probability (threshold >= 2) is produced by some probed value
-    for (txt, pf, pmf) in trees[: (120 if quick else 1500)]:
+    for (txt, pf, pmf) in trees[:NROLL]:
+        if txt not in full_probe:
+            continue
         missing = [z for z, p in pmf.items() if int(float(p) * 4294967295.0) >= 2 and z not in seen_outcomes.get(txt, set())]
         if missing:
             ctx.spec_failures.append({"stream": "dice", "input": f"roll({txt})", "impl": f"outcomes never produced at any probed threshold: {[fmt_q(z) for z in missing][:6]}", "model": "",
